@@ -18,8 +18,19 @@ class SetMutator(CollectionAttrMutator):
     HELPER_METHODS = SET_METHODS
 
     def _prepare_items(self):
-        for value in set(self.collection):
-            self.transform_item(value, self.prepare_item)
+        # Every item is prepared exactly once: a prepared value may equal an
+        # item that is still waiting for its turn, so the originals are all
+        # taken out before anything prepared goes (back) in.
+        originals = list(self.collection)
+        self.collection.clear()
+        try:
+            for value in originals:
+                self._inserter(MISSING, self.prepare_item(value))
+        except BaseException:
+            self.collection.clear()
+            for value in originals:
+                self.collection.add(value)
+            raise
 
     def _extractor(self, value_or_index, raise_if_missing=False):
         if raise_if_missing and value_or_index not in self.collection:
